@@ -185,6 +185,13 @@ def generate(rng: random.Random, tier: str) -> dict:
     if two_handles:
         for op in ops:
             op["handle"] = rng.randrange(2)
+    for op in ops:
+        if op["op"] in ("IMPORT_DATA", "GENERATE_MODEL", "GENERATE_PARAMETERS", "PROJECT_CREATE"):
+            # how the caller spells its booleans: real bools, numpy bools (result of a comparison) or ints
+            op["flag_type"] = rng.choice(["bool", "bool", "numpy", "int"])
+        if op["op"] == "PROJECT_OPTIMIZE" and rng.random() < 0.15:
+            # another process optimises the same result name start to end while this one is still computing
+            op["overlap"] = True
     return {"engine": NAME, "kind": "history", "ops": ops, "real_optimize": rng.random() < 0.15, "two_handles": two_handles}
 
 
@@ -572,8 +579,20 @@ class Run:
         self.ambiguous_names = False
         real_optimize = optmod.optimize
         pool = self.proj_pool
+        self.overlap = None
+        run = self
+
+        def stub_optimize(scheme, *a, **kw):
+            if run.overlap is not None:
+                (name,), run.overlap = run.overlap, None
+                # a second process: its own Project handle, the same result name, start to end
+                other = run.open_project()
+                other.optimize("m", "m_parameters", result_name=name, maximum_number_function_evaluations=2)
+                run.rec.probe("overlapping_optimize")
+            return pool.result
+
         if not plan.get("real_optimize"):
-            optmod.optimize = lambda scheme, *a, **kw: pool.result
+            optmod.optimize = stub_optimize
         kinds = []
         try:
             for op in plan["ops"]:
@@ -652,7 +671,7 @@ class Run:
 
         err = None
         try:
-            Project.create(self.proj_dir, allow_overwrite=op["allow_overwrite"])
+            Project.create(self.proj_dir, allow_overwrite=self.flag(op, "allow_overwrite"))
         except Exception as e:  # noqa: BLE001
             err = e
         after = snapshot(self.sandbox)
@@ -713,19 +732,30 @@ class Run:
         if crash is not None:
             raise crash
 
+    @staticmethod
+    def flag(op, name):
+        v = bool(op[name])
+        kind = op.get("flag_type", "bool")
+        if kind == "numpy":
+            return np.bool_(v)
+        if kind == "int":
+            return int(v)
+        return v
+
     def op_import_data(self, op, project, before):
         ds = make_dataset(op["variant"])
         self.flagged_target_op(
             op, "IMPORT_DATA", f"proj/data/{op['name']}.nc",
-            lambda: project.import_data(ds, dataset_name=op["name"], allow_overwrite=op["allow_overwrite"],
-                                        ignore_existing=op["ignore_existing"]),
+            lambda: project.import_data(ds, dataset_name=op["name"], allow_overwrite=self.flag(op, "allow_overwrite"),
+                                        ignore_existing=self.flag(op, "ignore_existing")),
         )
 
     def op_generate_model(self, op, project, before):
         self.flagged_target_op(
             op, "GENERATE_MODEL", f"proj/models/{op['name']}.yml",
             lambda: project.generate_model(op["name"], op["generator"], {"nr_compartments": 1, "irf": False},
-                                           allow_overwrite=op["allow_overwrite"], ignore_existing=op["ignore_existing"]),
+                                           allow_overwrite=self.flag(op, "allow_overwrite"),
+                                           ignore_existing=self.flag(op, "ignore_existing")),
         )
 
     def op_generate_parameters(self, op, project, before):
@@ -733,7 +763,8 @@ class Run:
         self.flagged_target_op(
             op, "GENERATE_PARAMETERS", f"proj/parameters/{name}.{op['format']}",
             lambda: project.generate_parameters("m", parameters_name=op["name"], format_name=op["format"],
-                                                allow_overwrite=op["allow_overwrite"], ignore_existing=op["ignore_existing"]),
+                                                allow_overwrite=self.flag(op, "allow_overwrite"),
+                                                ignore_existing=self.flag(op, "ignore_existing")),
         )
 
     def op_save(self, op, project, before):
@@ -811,6 +842,9 @@ class Run:
         old = sys.stdout
         sys.stdout = io.StringIO()
         err = crash = None
+        overlapping = bool(op.get("overlap")) and not self.plan.get("real_optimize") and not op.get("fault")
+        if overlapping:
+            self.overlap = (name,)
         try:
             project.optimize("m", "m_parameters", result_name=name, maximum_number_function_evaluations=2)
         except SimCrash as e:
@@ -842,6 +876,33 @@ class Run:
             return
         rec.oracle_after_fault += 1
         ok = err is None and crash is None
+        if overlapping and ok:
+            # two complete runs were stored: both must be fresh, consecutive in some order, nothing lost
+            if len(new_dirs) != 2:
+                rec.violate(
+                    "C18/run-number/overlapping-optimize", "accumulation",
+                    f"{tag}: two overlapping optimize calls for {base!r} stored {new_dirs} (expected two fresh run folders)",
+                )
+                return
+            nrs = []
+            for d in new_dirs:
+                m = re.fullmatch(re.escape(base) + r"_run_(\d{4,})", d)
+                if not m or (known and int(m.group(1)) <= max(known)):
+                    rec.violate("C18/run-number/overlapping-optimize", "accumulation", f"{tag}: new folder {d!r} is not a fresh run of {base!r}")
+                    return
+                nrs.append(int(m.group(1)))
+            prefix_all = {d: {k: v for k, v in after.items() if k.startswith(f"proj/results/{d}/")} for d in new_dirs}
+            for nr, d in zip(nrs, new_dirs):
+                known[nr] = "complete"
+                self.run_files[d] = prefix_all[d]
+            return
+        if overlapping and not ok and not fired:
+            rec.violate(
+                "C18/run-number/overlapping-optimize", "accumulation",
+                f"{tag}: an optimize overlapping with another optimize of the same name raised {type(err).__name__}: {err} "
+                f"- its run was not stored",
+            )
+            return
         if len(new_dirs) > 1:
             rec.violate("C18/run-number", "accumulation", f"{tag}: more than one new folder {new_dirs}")
             return
